@@ -403,6 +403,11 @@ func runParent(ch *Check, tier string, seed int64, nworkers int) int {
 
 	// classify violations against the known findings
 	os.MkdirAll(filepath.Join(verifDir, "replays"), 0o755)
+	if old, _ := filepath.Glob(filepath.Join(verifDir, "replays", ch.ID+"-*.json")); len(old) > 0 {
+		for _, f := range old {
+			os.Remove(f)
+		}
+	}
 	var lines []string
 	known := []map[string]any{}
 	newViolations := 0
